@@ -133,11 +133,20 @@ def _f(rng: random.Random) -> float:
 def synth(rng: random.Random, layout: str = 'v20', *, compress: tuple = (), origin_vertex: bool = True,
           faceids: str = 'full', water: bool = True, overlay_aux: bool = True, vis: bool = True,
           n_extra: int = 1, extra_game: bool = False, compress_game: tuple = (), fractional_bounds: bool = False,
-          detail_shapes: bool = False, hdr: bool = True, bad: tuple = ()) -> tuple[bytes, dict]:
+          detail_shapes: bool = False, hdr: bool = True, bad: tuple = (), aux: str = 'normal') -> tuple[bytes, dict]:
     """Build one consistent BSP. Returns (file bytes, description).
+    `aux` puts the contents of the side lumps (the lumps a view clears besides its main lump, which only the view's
+    writer can restore) at the values where they LOOK unused: 'zero' = every record of OVERLAY_FADES,
+    OVERLAY_SYSTEM_LEVELS, LEAFMINDISTTOWATER, LEAFFACES, LEAFBRUSHES, PRIMINDICES, PRIMVERTS, BRUSHSIDES, TEXDATA and
+    TEXDATA_STRING_TABLE is all zero bytes (fade distances (0.0, 0.0), index 0, one texture name ...); 'default' =
+    the values the reader substitutes for an absent lump (fades (-1.0, 0.0), levels 0, distance 65535); 'mixed' = the
+    first record zero, the others as usual; 'maxed' = all bits set where that is a legal value; 'absent' = the
+    optional side lumps are not there at all (LEAFMINDISTTOWATER, OVERLAY_FADES, OVERLAY_SYSTEM_LEVELS empty: an older
+    compiler).
     `bad` makes lumps malformed so that looking at their view raises: 'sprp_version' (static props of the unknown
     version 14: the reader raises at once), 'sprp_size' (3 stray bytes: the reader raises after it looked at visleafs),
-    'ents' (last entity not terminated), 'texinfo' (a texinfo naming a texdata that does not exist), 'dprp' (detail
+    'ents' (last entity not terminated), 'bmodel_ref' (an entity naming a brush model that does not exist: the bmodels
+    reader raises after it took the "model" key out of the brush entities of the cached ents view), 'texinfo' (a texinfo naming a texdata that does not exist), 'dprp' (detail
     prop lump cut short), 'overlays' (lump cut in the middle of a record)."""
     import srctools.bsp as B
     magic, version, l4d2, layname = LAYOUTS[layout]
@@ -150,6 +159,8 @@ def synth(rng: random.Random, layout: str = 'v20', *, compress: tuple = (), orig
 
     # textures / texdata / texinfo
     names = ['TOOLS/TOOLSNODRAW', 'brick/wall01', 'NATURE/water_canals01', 'wall01'][:3 + (n_extra > 0)]
+    if aux == 'zero':
+        names = names[:1]       # a single name: the string table is [0]
     sdata = b''
     offs = []
     for nm in names:
@@ -160,7 +171,9 @@ def synth(rng: random.Random, layout: str = 'v20', *, compress: tuple = (), orig
     td = []
     for i in range(len(names)):
         w, h = 64 << (i % 3), 128
-        if vit:
+        if aux == 'zero' or (aux == 'mixed' and i == 0):
+            td.append(bytes(24 if vit else 32))
+        elif vit:
             td.append(struct.pack('<3f3i', 0.25, 0.5, 0.125 * i, i, w, h))
         else:
             td.append(struct.pack('<3f5i', 0.25, 0.5, 0.125 * i, i, w, h, w, h))
@@ -182,6 +195,9 @@ def synth(rng: random.Random, layout: str = 'v20', *, compress: tuple = (), orig
     if not vit:
         d['PRIMVERTS'] = b''.join(struct.pack('<fff', _f(rng), _f(rng), _f(rng)) for _ in range(3))
         d['PRIMINDICES'] = b''.join(L['PRIMINDEX'].pack(i) for i in (0, 1, 2, 2, 1))
+        if aux == 'zero':
+            d['PRIMVERTS'] = bytes(len(d['PRIMVERTS']))
+            d['PRIMINDICES'] = bytes(len(d['PRIMINDICES']))
         d['PRIMITIVES'] = L['PRIMITIVE'].pack(0, 0, 3, 0, 2) + L['PRIMITIVE'].pack(1, 3, 2, 2, 1)
     # faces
     n_faces = 2 + n_extra
@@ -206,12 +222,18 @@ def synth(rng: random.Random, layout: str = 'v20', *, compress: tuple = (), orig
         d['FACEIDS'] = b''.join(L['FACEID'].pack(100 + i) for i in range(n_faces))
     elif faceids == 'zeros':
         d['FACEIDS'] = b''.join(L['FACEID'].pack(0) for i in range(n_faces))
+    elif faceids == 'short':        # fewer ids than faces: the reader gives the surplus faces hammer_id None
+        d['FACEIDS'] = b''.join(L['FACEID'].pack(100 + i) for i in range(n_faces - 1))
+    elif faceids == 'long':         # more ids than faces: the surplus is never looked at
+        d['FACEIDS'] = b''.join(L['FACEID'].pack(100 + i) for i in range(n_faces + 2))
     # brushes
     n_br = 2
     if vit:
         d['BRUSHSIDES'] = b''.join(L['BRUSHSIDE'].pack(i % n_pl, i % n_ti, 0, i % 2, 0) for i in range(5))
     else:
         d['BRUSHSIDES'] = b''.join(L['BRUSHSIDE'].pack(i % n_pl, i % n_ti, 0, (i % 2) | (2 if i == 3 else 0)) for i in range(5))
+    if aux == 'zero':
+        d['BRUSHSIDES'] = bytes(len(d['BRUSHSIDES']))
     d['BRUSHES'] = struct.pack('<iii', 0, 3, 1) + struct.pack('<iii', 3, 2, 32 if water else 1)
     # leafs
     n_leaf = 3
@@ -234,8 +256,13 @@ def synth(rng: random.Random, layout: str = 'v20', *, compress: tuple = (), orig
     d['LEAFFACES'] = b''.join(L['LEAFFACE'].pack(i) for i in (0, 1, 1))
     d['LEAFBRUSHES'] = b''.join(L['LEAFBRUSH'].pack(i) for i in (0, 1))
     d['LEAFMINDISTTOWATER'] = b''.join(struct.pack('<H', x) for x in (65535, 12, 0))
+    if aux == 'zero':
+        d['LEAFFACES'], d['LEAFBRUSHES'] = bytes(len(d['LEAFFACES'])), bytes(len(d['LEAFBRUSHES']))
+        d['LEAFMINDISTTOWATER'] = bytes(len(d['LEAFMINDISTTOWATER']))
+    elif aux in ('default', 'maxed'):
+        d['LEAFMINDISTTOWATER'] = b'\xff' * len(d['LEAFMINDISTTOWATER'])
     if water:
-        d['LEAFWATERDATA'] = L['LEAFWATERDATA'].pack(48.0, 8.0, 2)
+        d['LEAFWATERDATA'] = L['LEAFWATERDATA'].pack(48.0, 8.0, min(2, n_ti - 1))
     # nodes: node0 -> (node1, leaf0); node1 -> (leaf1, leaf2)
     d['NODES'] = (L['NODE'].pack(0, 1, -1 - 0, 0, 0, 0, 64, 64, 64, 0, 2, 0)
                   + L['NODE'].pack(1, -1 - 1, -1 - 2, 0, 0, 0, 32, 64, 64, 1, 1, 1))
@@ -271,6 +298,15 @@ def synth(rng: random.Random, layout: str = 'v20', *, compress: tuple = (), orig
     if overlay_aux:
         d['OVERLAY_FADES'] = b''.join(struct.pack('<ff', -1.0, 4.0 * i) for i in range(n))
         d['OVERLAY_SYSTEM_LEVELS'] = b''.join(struct.pack('<4B', 0, 3, 1, 2) for i in range(n))
+        if aux == 'zero':
+            d['OVERLAY_FADES'], d['OVERLAY_SYSTEM_LEVELS'] = bytes(8 * n), bytes(4 * n)
+        elif aux == 'default':      # what the reader substitutes when the lumps are absent
+            d['OVERLAY_FADES'], d['OVERLAY_SYSTEM_LEVELS'] = struct.pack('<ff', -1.0, 0.0) * n, bytes(4 * n)
+        elif aux == 'mixed':
+            d['OVERLAY_FADES'] = bytes(8) + d['OVERLAY_FADES'][8:]
+            d['OVERLAY_SYSTEM_LEVELS'] = bytes(4) + d['OVERLAY_SYSTEM_LEVELS'][4:]
+        elif aux == 'maxed':
+            d['OVERLAY_FADES'], d['OVERLAY_SYSTEM_LEVELS'] = struct.pack('<ff', 0.0, 1.0) * n, b'\xff' * (4 * n)
     d['CUBEMAPS'] = b''.join(struct.pack('<iiii', 16 * i, -16, 72, i % 8) for i in range(n + 1))
     # pakfile
     zb = io.BytesIO()
@@ -336,10 +372,15 @@ def synth(rng: random.Random, layout: str = 'v20', *, compress: tuple = (), orig
         dp_data = dp_data[:-7]
     if 'ents' in bad:
         d['ENTITIES'] = d['ENTITIES'][:-3] + b'\x00'          # the closing brace of the last entity is gone
+    if 'bmodel_ref' in bad:      # a second brush entity naming brush model 9 (there are 2): the bmodels reader raises IndexError
+        d['ENTITIES'] = d['ENTITIES'][:-1] + b'{\n"classname" "func_door"\n"model" "*9"\n"targetname" "dr"\n}\n\x00'
     if 'texinfo' in bad:
         d['TEXINFO'] = d['TEXINFO'][:-4] + struct.pack('<i', 77)
     if 'overlays' in bad:
         d['OVERLAYS'] = d['OVERLAYS'][:-9]
+    if aux == 'absent':
+        for nm in ('LEAFMINDISTTOWATER', 'OVERLAY_FADES', 'OVERLAY_SYSTEM_LEVELS'):
+            d.pop(nm, None)
     games: list[tuple[bytes, int, int, bytes]] = [(b'sprp', 1 if 'sprp' in compress_game else 0, sp_ver, sp_data)]
     if extra_game:
         games.append((b'xtra', (1 if 'xtra' in compress_game else 0) | 0x4, 3, bytes(rng.randrange(256) for _ in range(77))))
@@ -356,6 +397,6 @@ def synth(rng: random.Random, layout: str = 'v20', *, compress: tuple = (), orig
     blob = encode_container(magic, version, l4d2, rev, lumps, games)
     desc = dict(layout=layout, compress=sorted(compress), compress_game=sorted(compress_game), origin_vertex=origin_vertex,
                 faceids=faceids, water=water, overlay_aux=overlay_aux, vis=vis, n_extra=n_extra, extra_game=extra_game,
-                fractional_bounds=fractional_bounds, detail_shapes=detail_shapes, hdr=hdr, bad=sorted(bad), map_revision=rev, size=len(blob))
+                fractional_bounds=fractional_bounds, detail_shapes=detail_shapes, hdr=hdr, bad=sorted(bad), aux=aux, map_revision=rev, size=len(blob))
     desc['_parts'] = dict(magic=magic, version=version, l4d2=l4d2, map_revision=rev, lumps=lumps, games=games)
     return blob, desc
